@@ -260,6 +260,47 @@ theorem packaging_roots_known (bps : List Located) (inv : String) (r : String) :
         · simp at hmem
     · split at h <;> cases h
 
+/-! ### the node set: every buildpack of the workspace is a node, however its directory is reached -/
+
+/-- **The node set does not depend on how a buildpack directory is reached.** Turning every buildpack directory that
+is a symbolic link (any number of hops) into a real directory leaves the node list handed to
+`create_dependency_graph` unchanged — same nodes, same order. -/
+theorem discovery_independent_of_links (ps : List Placed) :
+    discover ps = discover (ps.map (fun p => match p.reach with | .link _ => ⟨p.node, .dir⟩ | _ => p)) := by
+  induction ps with
+  | nil => rfl
+  | cons p ps ih =>
+    obtain ⟨nd, r⟩ := p
+    unfold discover at ih ⊢
+    cases r <;> simp [Reach.visited] at ih ⊢ <;> exact ih
+
+/-- **No buildpack of the workspace is dropped.** Every placed buildpack whose directory entry is a directory or a
+link to one (i.e. not hidden below an intermediate linked directory) is a node. -/
+theorem placed_buildpack_is_node (ps : List Placed) (p : Placed) (hp : p ∈ ps) (hv : p.reach ≠ .viaLinkedDir) :
+    p.node ∈ discover ps := by
+  unfold discover
+  refine List.mem_map.2 ⟨p, List.mem_filter.2 ⟨hp, ?_⟩, rfl⟩
+  cases h : p.reach <;> simp_all [Reach.visited]
+
+/-- **`MissingDependency` only for a genuinely dangling reference.** When graph construction over the discovered
+nodes fails with `MissingDependency d`, some buildpack of the workspace declares `d` and no buildpack of the
+workspace — real directory or link — carries the id `d`. -/
+theorem missing_dependency_only_when_dangling (ps : List Placed) (d : String)
+    (h : createGraph (discover ps) = .error d) :
+    (∃ p ∈ ps, p.reach ≠ .viaLinkedDir ∧ d ∈ p.node.deps) ∧
+      ∀ p ∈ ps, p.reach ≠ .viaLinkedDir → p.node.id ≠ d := by
+  obtain ⟨nd, hnd, hdep, hnot⟩ := (missing_dependency_is_error (discover ps)).2 d h
+  refine ⟨?_, ?_⟩
+  · unfold discover at hnd
+    obtain ⟨p, hp, rfl⟩ := List.mem_map.1 hnd
+    obtain ⟨hp1, hp2⟩ := List.mem_filter.1 hp
+    refine ⟨p, hp1, ?_, hdep⟩
+    intro hr
+    rw [hr] at hp2
+    cases hp2
+  · intro p hp hv hid
+    exact hnot (List.mem_map.2 ⟨p.node, placed_buildpack_is_node ps p hp hv, hid⟩)
+
 /-! ### non-vacuity -/
 
 /-- a diamond with a tail: `3 → 1, 2`, `1 → 0`, `2 → 0`, `4 → 3`; ids `a … e` -/
@@ -319,5 +360,12 @@ example : packagingOrder sampleWs "bps/agent" = .ok ["leaf", "base", "agent"] :=
 example : packagingOrder sampleWs "." = .ok ["leaf", "base", "agent", "solo"] := rfl
 example : packagingOrder sampleWs "bps" = .error .noBuildpacksFound := rfl
 example : packagingOrder [⟨⟨"a", ["ghost"]⟩, "a"⟩, ⟨⟨"b", []⟩, "b"⟩] "b" = .error (.missingDependency "ghost") := rfl
+
+/-- the seed's demo workspace: `demo/jvm` is a link to a directory outside the workspace -/
+def sampleLinked : List Placed := [⟨⟨"demo/maven", []⟩, .dir⟩, ⟨⟨"demo/jvm", []⟩, .link 0⟩, ⟨⟨"demo/java", ["demo/jvm", "demo/maven"]⟩, .dir⟩, ⟨⟨"far", []⟩, .viaLinkedDir⟩]
+
+example : (discover sampleLinked).map (·.id) = ["demo/maven", "demo/jvm", "demo/java"] := rfl
+example : (createGraph (discover sampleLinked)).toOption.map (·.adj) = some [[], [], [1, 0]] := rfl
+example : createGraph (discover [⟨⟨"here", ["far"]⟩, .dir⟩, ⟨⟨"far", []⟩, .viaLinkedDir⟩]) = .error "far" := rfl
 
 end CnbVerif.C13
